@@ -104,6 +104,7 @@ type wWorld struct {
 	byID      map[hotstuff.ID][]*wNode
 	leaders   wLeaders
 	timer     time.Duration
+	noPreload bool
 	pending   []wMsg
 	signLog   []wSignRec
 	partition map[NodeID]int // partition block of each node; equal = connected
@@ -305,6 +306,7 @@ type wSpec struct {
 	sendFail  float64
 	crypto    string // signature scheme: ecdsa (default), eddsa, bls12
 	timer     time.Duration // view timer of the real synchronizer (default one hour: the scripts fire TimeoutEvents themselves)
+	noPreload bool          // leave the command caches empty: the scenario supplies commands while it runs
 }
 
 func newWorld(spec wSpec) (*wWorld, error) {
@@ -316,6 +318,7 @@ func newWorld(spec wSpec) (*wWorld, error) {
 		aggOf: map[hotstuff.Hash]*hotstuff.AggregateQC{}, timeoutIdx: map[string]wTimeoutInfo{},
 		timeoutsSeen: map[hotstuff.View][]hotstuff.TimeoutMsg{}, crashed: map[NodeID]bool{}, fetchFail: spec.fetchFail, sendFail: spec.sendFail,
 	}
+	w.noPreload = spec.noPreload
 	w.timer = spec.timer
 	if w.timer == 0 {
 		w.timer = time.Hour
@@ -418,7 +421,7 @@ func (w *wWorld) newNode(nid NodeID, pk hotstuff.PrivateKey, scheme string, byz,
 	// bounded queue (legitimately, C14) drops the oldest pending ones, which would hide CommitEvents from the observer
 	eventloop.Register(nd.eventLoop, func(c hotstuff.CommitEvent) { nd.commits = append(nd.commits, c.Block) }, eventloop.UnsafeRunInAddEvent())
 	eventloop.Register(nd.eventLoop, func(e hotstuff.ViewChangeEvent) { nd.viewChg = append(nd.viewChg, e) })
-	for i := 0; i < 4000; i++ {
+	for i := 0; i < 4000 && !w.noPreload; i++ {
 		nd.cmdCache.Add(&clientpb.Command{ClientID: 1, SequenceNumber: uint64(i + 1), Data: []byte(fmt.Sprint(i))})
 	}
 	return nd, nil
